@@ -74,8 +74,41 @@ type Options struct {
 	// imported package of the scratch module to its source (default: ext).
 	Local string
 	Ext   map[string]string
+	// Imports are further imported packages whose import path, declared name
+	// and name in the setup file need not coincide (Signature.tla Imports).
+	Imports []ExtPkg
 	// TypeNames are further names the projector treats as types (conversions).
 	TypeNames []string
+}
+
+// ExtPkg is one imported package of the scratch module: Path is relative to
+// the module, Src declares its own package name, Alias is the explicit name in
+// the import declaration ("" for none).
+type ExtPkg struct {
+	Path, Alias, Src string
+}
+
+var rePkgClause = regexp.MustCompile(`(?m)^package (\w+)`)
+
+// Qual is the name by which code refers to the package.
+func (e ExtPkg) Qual() string {
+	if e.Alias != "" {
+		return e.Alias
+	}
+	return rePkgClause.FindStringSubmatch(e.Src)[1]
+}
+
+func (e ExtPkg) file() string { return e.Path + "/" + rePkgClause.FindStringSubmatch(e.Src)[1] + ".go" }
+
+// exts is the complete list of imported packages, sorted by path.
+func (o *Options) exts() []ExtPkg {
+	var out []ExtPkg
+	for n, src := range o.Ext {
+		out = append(out, ExtPkg{Path: n, Src: src})
+	}
+	out = append(out, o.Imports...)
+	sort.Slice(out, func(i, j int) bool { return out[i].Path < out[j].Path })
+	return out
 }
 
 func (o *Options) defaults() {
@@ -133,22 +166,19 @@ func usesPkg(name string, texts ...string) bool {
 // referred to by notation comments only are imported blank (the idiom the
 // tool documents for converters and hooks of other packages).
 func importBlock(opt *Options, comments string, texts ...string) string {
-	var names []string
-	for n := range opt.Ext {
-		if usesPkg(n, texts...) || usesPkg(n, comments) {
-			names = append(names, n)
-		}
-	}
-	sort.Strings(names)
 	var sb strings.Builder
-	for _, n := range names {
-		if usesPkg(n, texts...) {
-			sb.WriteString("import \"" + modPath + "/" + n + "\"\n")
-		} else {
-			sb.WriteString("import _ \"" + modPath + "/" + n + "\"\n")
+	for _, e := range opt.exts() {
+		n := e.Qual()
+		switch {
+		case usesPkg(n, texts...) && e.Alias != "":
+			sb.WriteString("import " + e.Alias + " \"" + modPath + "/" + e.Path + "\"\n")
+		case usesPkg(n, texts...):
+			sb.WriteString("import \"" + modPath + "/" + e.Path + "\"\n")
+		case usesPkg(n, comments):
+			sb.WriteString("import _ \"" + modPath + "/" + e.Path + "\"\n")
 		}
 	}
-	if len(names) > 0 {
+	if sb.Len() > 0 {
 		sb.WriteString("\n")
 	}
 	return sb.String()
@@ -224,8 +254,8 @@ func Run(c *core.Ctx, opt Options, cases []*Case, judge func(*Result) Verdict) S
 	}
 	root := filepath.Join(c.Scratch, "b1-"+opt.Name)
 	mod := core.NewModule(root, modPath)
-	for n, src := range opt.Ext {
-		_ = core.WriteFiles(root, map[string]string{n + "/" + n + ".go": src})
+	for _, e := range opt.exts() {
+		_ = core.WriteFiles(root, map[string]string{e.file(): e.Src})
 	}
 	var packs []*pack
 	var cur *pack
@@ -411,8 +441,8 @@ func firstN(s string, n int) string {
 func observe(opt *Options, root string, p *pack, mline map[string]int, nlines map[string][]int, cerrs []string, unformatted bool) []*Result {
 	dir := filepath.Join(root, p.dir)
 	files := map[string]string{"go.mod": "module " + modPath + "\n\ngo 1.19\n"}
-	for n, src := range opt.Ext {
-		files[n+"/"+n+".go"] = src
+	for _, e := range opt.exts() {
+		files[e.file()] = e.Src
 	}
 	for _, fn := range []string{"setup.go", "cases.go"} {
 		b, _ := os.ReadFile(filepath.Join(dir, fn))
